@@ -156,6 +156,10 @@ class FuncView:
         node = n if isinstance(n, Node) else self.cfg_node(n)
         return [positive_form(t.ast, o) for t, o in self.cfg.control_conditions(node.id)]
 
+    def conditions_ast(self, n) -> List[Tuple[ast.AST, str]]:
+        node = n if isinstance(n, Node) else self.cfg_node(n)
+        return [(t.ast, o) for t, o in self.cfg.control_conditions(node.id)]
+
     def guarded(self, n, pred: Callable[[str], bool], outcome: str) -> bool:
         return any(pred(t) and o == outcome for t, o in self.conditions(n))
 
